@@ -4,8 +4,9 @@ Driver for the `setops` correspondence stream (C04): a table of sketch handles
 take a different route on a `FrozenMinHash`), one set operation per line,
 through the Python operators (`u.add`, `u.or`, `u.iadd`, `i.and`), the API
 methods (`u.merge`, `u.addmany`, `i.meth`, `s.rm`, `s.rmlist`, `f.meth`,
-`n.meth`, `d.meth`, `dn.meth`) and the cores of the `sourmash sig`
-sub-commands (`*.cli`).
+`n.meth`, `d.meth`, `dn.meth`; `u.merge.self`, `u.iadd.self`, `u.addmany.self`, `s.rm.self`: the receiver
+object is also the operand) and the cores of the `sourmash sig`
+sub-commands (`*.cli`, optionally with a route suffix `+k` / `+f` / `+kf`, see `stripRoute`).
 -/
 import SmVerif.Model.SigOps
 import SmVerif.Model.Proto
@@ -73,9 +74,19 @@ def addOp (s : MH) (frozen : Bool) (o : MH) : Except MH.Err MH :=
       n.merge o
   else Py.add s o
 
+/-- a sub-command route may carry a suffix `+k` (operand files also hold decoy signatures of another k-mer size /
+molecule type, the sub-command selects with `-k 21 --dna`), `+f` (operands passed through `--from-file`) or `+kf`:
+other ways of handing the same operands to the same sub-command core, so the model value is the same -/
+def stripRoute (w : String) : String := (w.splitOn "+").headD w
+
+def canonWords : List String → List String
+  | "d" :: op :: rest => "d" :: stripRoute op :: rest
+  | w :: rest => stripRoute w :: rest
+  | [] => []
+
 def step (st : St) (line : String) : St × String :=
   let bad := (st, "bad-op")
-  match words line with
+  match canonWords (words line) with
   | "#" :: _ => (init, "#")
   | "leaf" :: r :: num :: scaled :: track :: hs =>
     match nats? [r, num, scaled], bool? track, nats? hs with
@@ -175,7 +186,13 @@ def step (st : St) (line : String) : St × String :=
     | some [r, a] =>
       match get st a with
       | some (s, fz) =>
-        if op = "f.meth" then
+        -- SELF-ALIASED in-place operations: the receiver (a fresh mutable copy) is also the operand, one object.
+        -- Value semantics: `x.op(x)` is `x.op(copy of x)`.
+        if op = "u.merge.self" then fin st r false (do let n ← Py.toMutable s fz; n.merge n)
+        else if op = "u.iadd.self" then fin st r false (do let n ← Py.toMutable s fz; Py.iadd n n)
+        else if op = "u.addmany.self" then fin st r false (do let n ← Py.toMutable s fz; pure (n.addFrom n))
+        else if op = "s.rm.self" then fin st r false (do let n ← Py.toMutable s fz; pure (n.removeFrom n))
+        else if op = "f.meth" then
           match Py.flatten s with
           | .ok (some f) => fin st r fz (.ok f)
           | .ok none => fin st r fz (.ok s)
